@@ -47,7 +47,13 @@ def run_one(t):
             return (name, pid, "error", r.stderr.strip())
         r = subprocess.run(["git", "-C", wt, "apply", patch], capture_output=True, text=True)
         if r.returncode:
-            return (name, pid, "does-not-apply", r.stderr.strip()[:200])
+            # the patch may have been written against an earlier /repo commit
+            r = subprocess.run(["git", "-C", wt, "apply", "--3way", patch],
+                               capture_output=True, text=True)
+            conflict = subprocess.run(["git", "-C", wt, "diff", "--name-only",
+                                       "--diff-filter=U"], capture_output=True, text=True)
+            if r.returncode or conflict.stdout.strip():
+                return (name, pid, "does-not-apply", r.stderr.strip()[:200])
         env = dict(os.environ, LENA_REPO=wt, VERIF_JOBS=os.environ.get("SELFTEST_JOBS", "4"))
         r = subprocess.run([os.path.join(HERE, "check"), pid, "--tier", "quick"],
                            capture_output=True, text=True, env=env, timeout=3600)
